@@ -172,6 +172,12 @@ class Sym:
     def __abs__(self):
         if self.k == 'bool':
             return Sym(self.as_int(), 'int')
+        if CTX.sign_oracle is not None and not z3.is_app_of(self.t, z3.Z3_OP_ITE):
+            sg = CTX.sign_oracle(self.t, True)
+            if sg == 'pos':
+                return self
+            if sg == 'neg':
+                return -self
         return Sym(z3.If(self.t >= 0, self.t, -self.t), self.k,
                    z3.If(self.iv >= 0, self.iv, -self.iv) if self.iv is not None else None)
 
